@@ -273,6 +273,55 @@ def isolation_scenario():
 DIRECTED.append(isolation_scenario())
 
 
+# the FIRST import of a module from every kind of place - top level, function, method, closure, loop, each part of a try statement (finally
+# reached normally, by a return, by a propagating exception, and a function called from there), a fiber before and after a yield, another
+# module - each place with a module of its own: its body runs there once, and every later import (top level, function) runs nothing and
+# yields the same object
+def first_import_scenario():
+    places = [
+        ("top", 'import "{m}"; first.push({m});'),
+        ("fn", 'fn f_{m}() {{ import "{m}"; first.push({m}); }} f_{m}();'),
+        ("method", '#[constructor(new)] class K_{m} {{ fn go(self) {{ import "{m}"; first.push({m}); }} }} K_{m}.new().go();'),
+        ("closure", 'var c_{m} = || {{ import "{m}"; first.push({m}); }}; c_{m}();'),
+        ("loop", 'for i in 0..3 {{ import "{m}"; if i == 0 {{ first.push({m}); }} }}'),
+        ("try", 'try {{ import "{m}"; first.push({m}); }} catch e {{ print("unexpected"); }}'),
+        ("catch", 'try {{ throw "x"; }} catch e {{ import "{m}"; first.push({m}); }}'),
+        ("finally_normal", 'try {{ var z = 1; }} finally {{ import "{m}"; first.push({m}); }}'),
+        ("finally_return", 'fn r_{m}() {{ try {{ return 1; }} finally {{ import "{m}"; first.push({m}); }} }} r_{m}();'),
+        # (an import statement written directly in a finally block declares a local there: on the exception path that is F23, a known finding
+        # of C04/C08 - locals of a finally block are mis-addressed - so the places below import in something CALLED from the block)
+        ("closure_in_finally_propagating", 'var cf_{m} = || {{ import "{m}"; first.push({m}); }}; try {{ try {{ throw "boom"; }} finally {{ cf_{m}(); }} }} catch e {{ print("caught " + e); }}'),
+        ("called_from_finally_propagating", 'fn g_{m}() {{ import "{m}"; first.push({m}); }} fn w_{m}() {{ try {{ throw "boom"; }} finally {{ g_{m}(); }} }} '
+                                            'try {{ w_{m}(); }} catch e {{ print("caught " + e); }}'),
+        ("fiber", 'Fiber.new(|| {{ import "{m}"; first.push({m}); }}).call();'),
+        ("fiber_after_yield", 'var fb_{m} = Fiber.new(|| {{ Fiber.yield(1); import "{m}"; first.push({m}); }}); fb_{m}.call(); fb_{m}.call();'),
+        ("module", 'import "via_{m}"; first.push(via_{m}.{m});'),
+    ]
+    src = ["var first = [];"]
+    mods = {}
+    exp = []
+    for i, (place, tmpl) in enumerate(places):
+        m = "m_" + place
+        mods[m] = 'var runs = "body of %s";\nprint("run %s");\nfn again() { return runs; }\n' % (m, m)
+        if place == "module":
+            mods["via_" + m] = 'import "%s";\nprint("via done");\n' % m
+        src.append(tmpl.format(m=m))
+        exp.append("run " + m)
+        if place == "module":
+            exp.append("via done")
+        if "propagating" in place:
+            exp.append("caught boom")
+    for i, (place, _) in enumerate(places):
+        m = "m_" + place
+        src.append('import "%s"; print("%s " + String.from(%s == first[%d]) + " " + %s.again());' % (m, m, m, i, m))
+        src.append('fn later_%s() { import "%s" as again; return again == first[%d]; } print(later_%s());' % (m, m, i, m))
+        exp += ["%s true body of %s" % (m, m), "true"]
+    return ("first-import-from-every-kind-of-place", "\n".join(src) + "\n", mods, exp)
+
+
+DIRECTED.append(first_import_scenario())
+
+
 def correspondence(ctx, model_ok=True):
     rng = ctx.rng.fork("c14")
     failures = []
